@@ -61,6 +61,11 @@ func (u *Unit) bytesOf(st *State, s Term) Term {
 	if f, ok := u.bytesCache["fn|"+h.S]; ok {
 		u.assume(tTrue, eq2(b, app("Bytes", f.S, s)))
 	}
+	// ground instances of the contents axiom, used only by candidate-model queries
+	for k := 0; k < replayBytes; k++ {
+		u.groundHints = append(u.groundHints, fmt.Sprintf("(assert (=> (< %d %s) (= (select (barr %s) %d) %s)))", k, ln.S, b.S, k, sel(row, Term{fmt.Sprintf("(+ %s %d)", off.S, k), "Int"}).S))
+	}
+	u.groundHints = append(u.groundHints, fmt.Sprintf("(assert (<= %s %d))", ln.S, replayBytes))
 	u.bytesCache[key] = b
 	return b
 }
